@@ -1,16 +1,21 @@
 (* C09/Props.v — the property theorems.  Nothing but statements here; the
-   proofs are in Proofs_*.v. *)
+   proofs are in Proofs_*.v.  Constants come from Gen/C09.v, regenerated from
+   /repo on every run. *)
 From Coq Require Import List NArith ZArith Bool Lia.
 From Common Require Import Bytes Outcome.
 From Gen Require Import C09.
-From C09 Require Import Model Util Proofs_12.
+From C09 Require Import Model Model4 ModelT Util Proofs_12 Proofs_4edges Proofs_4spec
+  Proofs_4emit Proofs_4dec Proofs_T.
 Import ListNotations.
 Local Open Scope N_scope.
 
-(* Format 12 round trip: for every map uint32 -> glyph given as a strictly
-   sorted association list with at most 65536 entries (keys below 0xFFFFFFFF,
-   glyph ids 16 bit) and every language value, the library's decoder applied to
-   the encoder's output returns exactly the map. *)
+(* ================================================================== *)
+(* Format 12                                                          *)
+
+(* Round trip: for every map uint32 -> glyph given as a strictly sorted
+   association list with at most 65536 entries (keys below 0xFFFFFFFF, glyph
+   ids 16 bit) and every language value, the library's decoder applied to the
+   encoder's output returns exactly the map. *)
 Theorem format12_roundtrip :
   forall (m : amap) (lang : N),
     sorted_keys m = true ->
@@ -19,6 +24,19 @@ Theorem format12_roundtrip :
     M_decode12 false (M_encode12 m lang) = Ok m.
 Proof. intros m lang Hs Hb Hl. exact (decode12_encode12 m lang Hs Hb Hl). Qed.
 Print Assumptions format12_roundtrip.
+
+(* An independent, specification-conforming reader (S_lookup12: groups
+   searched in order, glyph = startGlyphID + (c - startCharCode), no
+   truncation) sees the map's glyph for EVERY code point, and glyph 0 for
+   unmapped ones. *)
+Theorem format12_spec_reader :
+  forall (m : amap) (lang c : N),
+    sorted_keys m = true ->
+    Forall (fun p => fst p < 4294967295 /\ snd p < 65536) m ->
+    N.of_nat (length m) <= 65536 ->
+    S_lookup12 (M_encode12 m lang) c = lookup m c.
+Proof. intros m lang c Hs Hb Hl. exact (spec12_encode12 m lang c Hs Hb Hl). Qed.
+Print Assumptions format12_spec_reader.
 
 (* The groups written are sorted, disjoint and minimal (no two neighbouring
    groups could be merged), and expanding them gives back the map. *)
@@ -29,3 +47,209 @@ Theorem format12_groups :
     segs12_ok None (M_segs12 m) = true /\ flat_map expand12 (M_segs12 m) = m.
 Proof. intros m Hs Hb. split; [exact (segs12_ok_enc m Hs Hb)|exact (segs12_expand m Hb)]. Qed.
 Print Assumptions format12_groups.
+
+(* Segmented tables found in files: whenever the decoder accepts a byte
+   string, the map it returns is sorted, has at most 65536 entries and gives,
+   for every code point, the glyph the specification defines. *)
+Theorem decode12_agrees_with_spec :
+  forall (mac : bool) (data : list N) (m : amap),
+    Forall (fun b => b < 256) data ->
+    M_decode12 mac data = Ok m ->
+    sorted_keys m = true /\ N.of_nat (length m) <= 65536 /\
+    forall c, lookup m c = S_lookup12 data c.
+Proof. intros mac data m Hb H. exact (decode12_spec mac data m Hb H). Qed.
+Print Assumptions decode12_agrees_with_spec.
+
+Theorem decode12_total :
+  forall (mac : bool) (data : list N), M_decode12 mac data <> Panic.
+Proof. exact decode12_no_panic. Qed.
+Print Assumptions decode12_total.
+
+(* ================================================================== *)
+(* Format 4                                                           *)
+
+(* P1 edges_progress: for every map and every vertex v <= 0xFFFF the graph
+   handed to the shortest-path search has an edge at v, every edge ends
+   strictly after v and inside the code space, and therefore a path from v to
+   0x10000 exists (the search cannot fail) and every path is finite. *)
+Theorem edges_progress :
+  forall (m : N -> N), (forall c, m c < 65536) ->
+  forall v, v <= 65535 ->
+    M_edges m v <> [] /\
+    (forall s, In s (M_edges m v) -> v < M_edge_to s /\ M_edge_to s <= 65536) /\
+    exists segs, path m v segs.
+Proof.
+  intros m Hm v Hv. split; [exact (edges_nonempty m v Hv)|]. split.
+  - intros s Hs. exact (edges_forward m Hm v s Hv Hs).
+  - apply (path_exists m Hm). lia.
+Qed.
+Print Assumptions edges_progress.
+
+(* Every proposed edge is a correct segment: it starts at or after the vertex,
+   the codes skipped before it are unmapped, a delta segment satisfies
+   (c + idDelta) mod 65536 = m c on all its codes, and an explicit-value
+   segment has idDelta 0. *)
+Theorem edges_correct :
+  forall (m : N -> N), (forall c, m c < 65536) ->
+  forall v s, v <= 65535 -> In s (M_edges m v) -> edge_ok m v s.
+Proof. intros m Hm v s Hv Hs. exact (edges_sound m Hm v s Hv Hs). Qed.
+Print Assumptions edges_correct.
+
+(* P1 format4_any_path_correct: for every map m : uint16 -> glyph, EVERY path
+   segs from 0 to 0x10000 built from M_edges edges whose emitted size fits the
+   16-bit length field, and every language value: the assembly does not panic,
+   the byte length is the computed size, the specification lookup on the bytes
+   returns m c for all 65536 codes (0 for unmapped codes, glyph ids wrapping
+   modulo 65536 and code 0xFFFF included), the last segment ends at 0xFFFF and
+   the header fields are the specification's formulas.  Because the statement
+   holds for every path, the shortest-path package is not in the trusted base. *)
+Theorem format4_any_path_correct :
+  forall (m : N -> N), (forall c, m c < 65536) ->
+  forall (segs : list seg4) (lang : N),
+    lang < 65536 ->
+    path m 0 segs ->
+    emit4_size m segs <= 65535 ->
+    let n := N.of_nat (length segs) in
+    exists b,
+      M_emit4 m segs lang = Ok b /\
+      N.of_nat (length b) = emit4_size m segs /\
+      (forall c, c <= 65535 -> S_lookup4 b c = Some (m c)) /\
+      s_last (last segs (mkSeg 0 0 0 false)) = 65535 /\
+      word_at b 0 = Some 4 /\                          (* format *)
+      word_at b 2 = Some (N.of_nat (length b)) /\      (* length *)
+      word_at b 4 = Some lang /\                       (* language *)
+      word_at b 6 = Some (2 * n) /\                    (* segCountX2 *)
+      word_at b 8 = Some (S_searchRange n) /\
+      word_at b 10 = Some (S_entrySelector n) /\
+      word_at b 12 = Some (S_rangeShift n) /\
+      word_at b (14 + 2 * n) = Some 0.                 (* reservedPad *)
+Proof.
+  intros m Hm segs lang Hl Hp Hs.
+  apply (emit4_correct m Hm segs lang); [|assumption|assumption].
+  apply (path_wf m Hm); [lia|assumption].
+Qed.
+Print Assumptions format4_any_path_correct.
+
+(* The same for the boolean path checker that the harness's model run applies
+   to the segmentation found in the implementation's output. *)
+Theorem format4_checked_output_correct :
+  forall (m : N -> N), (forall c, m c < 65536) ->
+  forall (segs : list seg4) (lang : N),
+    lang < 65536 -> path_ok m 0 segs = true -> emit4_size m segs <= 65535 ->
+    exists b, M_emit4 m segs lang = Ok b /\
+              forall c, c <= 65535 -> S_lookup4 b c = Some (m c).
+Proof.
+  intros m Hm segs lang Hl Hp Hs.
+  destruct (emit4_correct m Hm segs lang) as (b & H1 & _ & H3 & _); [|assumption|assumption|eauto].
+  apply (path_wf m Hm); [lia|]. now apply path_ok_sound.
+Qed.
+Print Assumptions format4_checked_output_correct.
+
+(* P1 decode4_agrees_with_spec: whenever decodeFormat4 (code2rune = unicode)
+   accepts a byte string, the map it returns is sorted, has at most 65536
+   entries, and for every code gives the glyph the specification lookup
+   defines.  The one documented tolerance: a final segment 0xFFFF..0xFFFF whose
+   idRangeOffset points outside the glyphIdArray is treated as unmapped ("some
+   fonts seem to have invalid data for the last segment"). *)
+Theorem decode4_agrees_with_spec :
+  forall (data : list N) (m' : amap),
+    Forall (fun b => b < 256) data ->
+    M_decode4 (fun c => c) data = Ok m' ->
+    sorted_keys m' = true /\ N.of_nat (length m') <= 65536 /\
+    forall c g, c <= 65535 -> S_lookup4 data c = Some g ->
+      lookup m' c = g \/ (c = 65535 /\ lookup m' c = 0).
+Proof. intros data m' Hb H. exact (decode4_spec data m' Hb H). Qed.
+Print Assumptions decode4_agrees_with_spec.
+
+(* Encoder and decoder together: if the library's decoder accepts the bytes
+   emitted for a path, it returns the map (every code below 0xFFFF exactly;
+   code 0xFFFF up to the tolerance above). *)
+Theorem format4_roundtrip_partial :
+  forall (m : N -> N), (forall c, m c < 65536) ->
+  forall (segs : list seg4) (lang : N) (b : list N) (m' : amap),
+    lang < 65536 -> path m 0 segs -> emit4_size m segs <= 65535 ->
+    M_emit4 m segs lang = Ok b ->
+    M_decode4 (fun c => c) b = Ok m' ->
+    forall c, c <= 65535 -> lookup m' c = m c \/ (c = 65535 /\ lookup m' c = 0).
+Proof.
+  intros m Hm segs lang b m' Hl Hp Hs Hb Hd c Hc.
+  destruct (emit4_correct m Hm segs lang) as (b0 & H1 & _ & H3 & _); [|assumption|assumption|].
+  { apply (path_wf m Hm); [lia|assumption]. }
+  rewrite Hb in H1. injection H1 as <-.
+  assert (Hbytes : Forall (fun x => x < 256) b) by exact (emit4_bytes_ok m segs lang b Hb).
+  destruct (decode4_spec b m' Hbytes Hd) as (_ & _ & H).
+  apply (H c (m c) Hc). now apply H3.
+Qed.
+Print Assumptions format4_roundtrip_partial.
+
+(* P1 (C02 part): decodeFormat4 never panics, for any bytes and any code2rune. *)
+Theorem decode4_total :
+  forall (c2r : N -> N) (data : list N), M_decode4 c2r data <> Panic.
+Proof. exact decode4_no_panic. Qed.
+Print Assumptions decode4_total.
+
+(* ================================================================== *)
+(* The cmap table                                                     *)
+
+(* P1 (C02 part): cmap.Decode never panics; every subtable it returns lies
+   inside the table, has at least 10 bytes and one of the format values
+   0,2,4,6,8,10,12,13,14; Table.Get on a decoded table never panics (this is
+   where decodeFormat0's unguarded data[6:] and the nil entries of the decoder
+   table are shown unreachable). *)
+Theorem decode_table_total :
+  forall (data : list N),
+    M_decode_table data <> Panic /\
+    forall t, M_decode_table data = Ok t ->
+      Forall (fun kv => 10 <= snd (snd kv) /\
+                        fst (snd kv) + snd (snd kv) <= N.of_nat (length data) /\
+                        valid_format (rd16 (skipn (N.to_nat (fst (snd kv))) data)) = true) t.
+Proof. intros data. exact (decode_table_inv data). Qed.
+Print Assumptions decode_table_total.
+
+Theorem get_total :
+  forall (macrune : N -> N) (data : list N) (t : list (key * list N)) (k : key),
+    M_decode_table_bytes data = Ok t -> M_get macrune t k <> Panic.
+Proof. intros mr data t k H. exact (get_no_panic mr data t k H). Qed.
+Print Assumptions get_total.
+
+(* P1 getbest_preference: GetBest returns the subtable of the FIRST entry of
+   the candidate list found in cmap.go that is present (with language 0) and
+   decodable; it fails only if none is; it never panics on a decoded table. *)
+Theorem getbest_preference :
+  forall (macrune : N -> N) (t : list (key * list N)),
+    (forall i s, M_getbest macrune t = Ok (i, s) ->
+       exists j pe, i = N.of_nat j /\ nth_error getbest_candidates j = Some pe /\
+         M_get macrune t (fst pe, snd pe, 0) = Ok s /\
+         forall j' pe', (j' < j)%nat -> nth_error getbest_candidates j' = Some pe' ->
+                        ~ usable macrune t pe') /\
+    (M_getbest macrune t = Err ->
+       forall pe, In pe getbest_candidates -> ~ usable macrune t pe) /\
+    ((forall k, M_get macrune t k <> Panic) -> M_getbest macrune t <> Panic).
+Proof.
+  intros mr t. split; [|split].
+  - intros i s H. destruct (getbest_from_spec mr t _ 0 i s H) as (j & pe & H1 & H2 & H3 & H4).
+    exists j, pe. split; [lia|]. split; [assumption|]. split; assumption.
+  - intros H. exact (getbest_from_none mr t _ 0 H).
+  - intros H. exact (getbest_from_no_panic mr t _ 0 H).
+Qed.
+Print Assumptions getbest_preference.
+
+(* ... and that list prefers full Unicode (3,10), (0,4) over BMP (3,1), (0,3)
+   over the legacy Macintosh encoding (1,0). *)
+Theorem getbest_order :
+  getbest_candidates = [(3, 10); (0, 4); (3, 1); (0, 3); (1, 0)].
+Proof. reflexivity. Qed.
+Print Assumptions getbest_order.
+
+(* InstallCMap: encoding ids (0,3)+(3,1) for maps inside the BMP, (0,4)+(3,10)
+   as soon as a code above 0xFFFF is mapped; language 0. *)
+Theorem installcmap_ids :
+  forall high : Z,
+    ((high <= 65535)%Z -> M_installcmap_keys high = [(0, 3, 0); (3, 1, 0)]) /\
+    ((65535 < high)%Z -> M_installcmap_keys high = [(0, 4, 0); (3, 10, 0)]).
+Proof.
+  intros high. unfold M_installcmap_keys, installcmap_keys. split; intros H.
+  - replace (65535 <? high)%Z with false by lia. reflexivity.
+  - replace (65535 <? high)%Z with true by lia. reflexivity.
+Qed.
+Print Assumptions installcmap_ids.
